@@ -212,18 +212,23 @@ def GateKey.ofName? : String → Option GateKey
   | "X" => some .X | "Y" => some .Y | "Z" => some .Z | "H" => some .H | "S" => some .S
   | "CX" => some .CX | "CY" => some .CY | "CZ" => some .CZ | _ => none
 
-private def g (re im : Int) : GInt := ⟨re, im⟩
-
 /-- the gate matrix times `√scale` (only `H` needs `scale = 2`) -/
 def GateKey.mat : GateKey → Mat
-  | .X => [[0, 1], [1, 0]]
-  | .Y => [[0, g 0 (-1)], [g 0 1, 0]]
-  | .Z => [[1, 0], [0, g (-1) 0]]
-  | .H => [[1, 1], [1, g (-1) 0]]
-  | .S => [[1, 0], [0, g 0 1]]
-  | .CX => [[1, 0, 0, 0], [0, 1, 0, 0], [0, 0, 0, 1], [0, 0, 1, 0]]
-  | .CY => [[1, 0, 0, 0], [0, 1, 0, 0], [0, 0, 0, g 0 (-1)], [0, 0, g 0 1, 0]]
-  | .CZ => [[1, 0, 0, 0], [0, 1, 0, 0], [0, 0, 1, 0], [0, 0, 0, g (-1) 0]]
+  | .X => [[⟨0, 0⟩, ⟨1, 0⟩], [⟨1, 0⟩, ⟨0, 0⟩]]
+  | .Y => [[⟨0, 0⟩, ⟨0, -1⟩], [⟨0, 1⟩, ⟨0, 0⟩]]
+  | .Z => [[⟨1, 0⟩, ⟨0, 0⟩], [⟨0, 0⟩, ⟨-1, 0⟩]]
+  | .H => [[⟨1, 0⟩, ⟨1, 0⟩], [⟨1, 0⟩, ⟨-1, 0⟩]]
+  | .S => [[⟨1, 0⟩, ⟨0, 0⟩], [⟨0, 0⟩, ⟨0, 1⟩]]
+  | .CX => [[⟨1, 0⟩, ⟨0, 0⟩, ⟨0, 0⟩, ⟨0, 0⟩], [⟨0, 0⟩, ⟨1, 0⟩, ⟨0, 0⟩, ⟨0, 0⟩],
+            [⟨0, 0⟩, ⟨0, 0⟩, ⟨0, 0⟩, ⟨1, 0⟩], [⟨0, 0⟩, ⟨0, 0⟩, ⟨1, 0⟩, ⟨0, 0⟩]]
+  | .CY => [[⟨1, 0⟩, ⟨0, 0⟩, ⟨0, 0⟩, ⟨0, 0⟩], [⟨0, 0⟩, ⟨1, 0⟩, ⟨0, 0⟩, ⟨0, 0⟩],
+            [⟨0, 0⟩, ⟨0, 0⟩, ⟨0, 0⟩, ⟨0, -1⟩], [⟨0, 0⟩, ⟨0, 0⟩, ⟨0, 1⟩, ⟨0, 0⟩]]
+  | .CZ => [[⟨1, 0⟩, ⟨0, 0⟩, ⟨0, 0⟩, ⟨0, 0⟩], [⟨0, 0⟩, ⟨1, 0⟩, ⟨0, 0⟩, ⟨0, 0⟩],
+            [⟨0, 0⟩, ⟨0, 0⟩, ⟨1, 0⟩, ⟨0, 0⟩], [⟨0, 0⟩, ⟨0, 0⟩, ⟨0, 0⟩, ⟨-1, 0⟩]]
+
+/-- the one-qubit gate that a two-qubit gate applies to its target (`to_universal_circuit`: `CX ↦ X`, …) -/
+def GateKey.base : GateKey → GateKey
+  | .CX => .X | .CY => .Y | .CZ => .Z | k => k
 
 def GateKey.scale : GateKey → GInt
   | .H => ⟨2, 0⟩
